@@ -31,6 +31,7 @@ func init() {
 			"non-trivial = at least one bulk operation, or an enumeration (iterator / Range / All) that crosses a word boundary, in a sequence of ≥ 6 ops; distinct by hash of the op list",
 		Classify: classify,
 		Parallel: true,
+		Extras:   []core.Extra{{Name: "parallel-objects", Run: extraParallel}, {Name: "huge-bitmaps", Run: extraHuge}},
 		Assumptions: []string{
 			"math/bits.OnesCount64 = number of set bits (modelled as popcount)",
 			"Go int treated as unbounded (word counts far below 2^57)",
@@ -600,9 +601,11 @@ func genLarge(r *core.Rand, tier string) core.Case {
 				continue
 			}
 			emit("%s %d %d", []string{"diff", "intersect", "merge"}[r.Intn(3)], a, b)
-			emit("len %d", a)
-			emit("blen %d", a)
-			emit("len %d", b)
+			if r.Chance(50) { // half of the bulk results are used further before anyone asks for Len
+				emit("len %d", a)
+				emit("blen %d", a)
+				emit("len %d", b)
+			}
 			if wl[b] > wl[a] {
 				wl[a] = wl[b]
 			}
@@ -1257,6 +1260,7 @@ func historyLabels(c core.Case, out []string) []string {
 	words := make([]int, nr)      // current word count
 	cutFrom := make([]int, nr)    // word count before an Intersect with an empty operand (0 = none pending)
 	mergedInto := make([]int, nr) // receiver r was empty when `merge r b` ran: b+1 (0 = none)
+	unseen := make([]bool, nr)    // register holds a bulk result nobody has called Len() on yet
 	for i := range sets {
 		sets[i] = map[uint64]bool{}
 	}
@@ -1320,11 +1324,17 @@ func historyLabels(c core.Case, out []string) []string {
 				n[k] = true
 			}
 			sets[r], words[r], cutFrom[r], mergedInto[r] = n, words[b], 0, 0
+		case "len":
+			unseen[r] = false
 		case "diff", "intersect", "merge":
 			b, _ := strconv.Atoi(t[2])
 			if b < 0 || b >= nr || b == r {
 				continue
 			}
+			if unseen[b] {
+				ls = append(ls, "bulk operand is itself a bulk result nobody has asked for Len yet")
+			}
+			unseen[r] = true
 			if len(sets[b]) == 0 {
 				ls = append(ls, t[0]+" with an EMPTY other operand ("+kinds[r]+")")
 			}
